@@ -706,3 +706,32 @@ Lemma gen_table_widths :
   /\ (forall e, G.arl_pack_shift e = 7 - e /\ G.arl_unpack_shift e = 7 - e)
   /\ (forall g, G.arl_gridx_off g = Z.max 0 ((g - 64) * 1000) /\ G.arl_gridy_off g = Z.max 0 ((g - 64) * 1000)).
 Proof. repeat split; reflexivity. Qed.
+
+(* times: the four I2 fields of a time stamp decode (blank -> '0', two digits) to the numbers
+   that were formatted *)
+Lemma sweep_two_digits :
+  forallb (fun z => match fmtI 2 z with [a; b] => two_digits a b =? z | _ => false end) (zrange 0 100) = true.
+Proof. vm_compute. reflexivity. Qed.
+Lemma two_digits_fmt z : 0 <= z <= 99 -> exists a b, fmtI 2 z = [a; b] /\ two_digits a b = z.
+Proof.
+  intros H. pose proof sweep_two_digits as S. rewrite forallb_forall in S.
+  specialize (S z (in_zrange 0 100 z ltac:(lia))).
+  destruct (fmtI 2 z) as [|a [|b [|c t]]]; try discriminate. exists a, b. split; [reflexivity|lia].
+Qed.
+Lemma time_fields_fmt yy mm dd hh ff :
+  0 <= yy <= 99 -> 0 <= mm <= 99 -> 0 <= dd <= 99 -> 0 <= hh <= 99 ->
+  time_fields (fmtI 2 yy ++ fmtI 2 mm ++ fmtI 2 dd ++ fmtI 2 hh ++ ff) = [yy; mm; dd; hh].
+Proof.
+  intros H1 H2 H3 H4.
+  destruct (two_digits_fmt yy H1) as (a1 & b1 & -> & <-). destruct (two_digits_fmt mm H2) as (a2 & b2 & -> & <-).
+  destruct (two_digits_fmt dd H3) as (a3 & b3 & -> & <-). destruct (two_digits_fmt hh H4) as (a4 & b4 & -> & <-).
+  reflexivity.
+Qed.
+
+(* the range bump of pack2d (if RMAX * 2.0**(7 - NEXP) > 127: NEXP = NEXP + 1), multiplied through
+   by 2^NEXP, is the model's nexp_rule_fixed *)
+Lemma gen_bump :
+  G.arl_bump_limit = 127 /\ (forall e, G.arl_bump_shift e = 7 - e /\ G.arl_bump_nexp e = e + 1)
+  /\ forall r, nexp_rule_fixed r =
+       let e := Z.log2 r + 1 in if G.arl_bump_limit * 2 ^ e <? 2 ^ 7 * r then G.arl_bump_nexp e else e.
+Proof. repeat split; reflexivity. Qed.
